@@ -23,6 +23,13 @@ open Solids
 
 /-! ## Closedness -/
 
+/-- what `Closed` says, in counting form: every directed edge of the surface occurs exactly once, its reverse occurs
+    exactly once, and no edge is a loop (⇔ every undirected edge is shared by exactly two triangles, with opposite
+    directions) -/
+theorem closed_iff_every_edge_once {β : Type} [DecidableEq β] (ts : List (β × β × β)) :
+    Closed ts ↔ ∀ e ∈ edges ts, (edges ts).count e = 1 ∧ (edges ts).count (e.2, e.1) = 1 ∧ e.1 ≠ e.2 :=
+  closed_iff_count ts
+
 /-- **UV sphere, all sizes.** For every `rows ≥ 2`, `cols ≥ 3` (exactly the parameters `UVSphere` accepts) the
     index buffer of the welded sphere is a closed consistently oriented surface on its vertex ids. -/
 theorem uvSphere_closed {rows cols : Nat} (hR : 2 ≤ rows) (hC : 3 ≤ cols) :
@@ -83,6 +90,12 @@ theorem uvSphere_positions_distinct {rows cols : Nat} {r : ℝ} (hr : 0 < r) (hR
     (h : uvSpherePos r rows cols v = uvSpherePos r rows cols w) : v = w :=
   uvSphere_pos_inj_aux hr hR hC hv hw h
 
+/-- the hemisphere has no two vertices at the same position (it needs no merging) -/
+theorem hemisphere_positions_distinct {rows cols : Nat} {r : ℝ} (hr : 0 < r) (hR : 2 ≤ rows) (hC : 3 ≤ cols)
+    {v w : Nat} (hv : v < uvSphereNV rows cols) (hw : w < uvSphereNV rows cols)
+    (h : hemispherePos r rows cols v = hemispherePos r rows cols w) : v = w :=
+  hemisphere_pos_inj_aux hr hR hC hv hw h
+
 /-- unwelded sphere: two vertices are copies of the same welded vertex iff their positions coincide -/
 theorem uvSphereUnwelded_merge_exact {rows cols : Nat} {r : ℝ} (hr : 0 < r) (hR : 2 ≤ rows) (hC : 3 ≤ cols)
     {v w : Nat} (hv : v < uvUnweldedNV rows cols) (hw : w < uvUnweldedNV rows cols) :
@@ -106,6 +119,10 @@ theorem cubeQuads_merge_exact {w h d : ℝ} (hw : 0 < w) (hh : 0 < h) (hd : 0 < 
 theorem cubeWelded_positions_distinct {w h d : ℝ} (hw : 0 < w) (hh : 0 < h) (hd : 0 < d)
     {v v' : Nat} (hv : v < 8) (hv' : v' < 8) (e : cubeWeldedPos w h d v = cubeWeldedPos w h d v') : v = v' :=
   cornerPos_inj hw hh hd hv hv' e
+
+example : cylinderPt 5 10 = cylinderPt 5 0 ∧ cylinderPt 5 12 = cylinderPt 5 0 ∧ cylinderPt 5 19 = cylinderPt 5 9 := by decide
+example : uvUnweldedSrc 4 5 0 = uvUnweldedSrc 4 5 6 ∧ uvUnweldedSrc 4 5 2 ≠ uvUnweldedSrc 4 5 1 := by decide
+example : cubeQuadsPt 0 = cubeQuadsPt 11 ∧ cubeQuadsPt 0 = cubeQuadsPt 21 := by decide
 
 /-! ## Outwardness (positions over ℝ: the real-number meaning of the constructors' expressions)
 
